@@ -14,7 +14,7 @@ theorem frameOK_visit {c : Cfg} {T : List Name} {i0 : Ids} {b : Body} {root : Bo
     (hp : ∀ x, x ∈ params ↔ x ∈ i0.argDecl ∨ x ∈ pageArgsOf b) :
     FrameOK c T { ids := visit i0 root b, params, own := ownOf b, defs := closOf root b, useLocals := ul } := by
   have hl := fun x => listOK_spec (x := x) b root hlist
-  refine { notcc := rfl, arg := ?_, loc := ?_, argR := ?_, locR := ?_, clos := ?_, und := ?_, tops := ?_, loopdef := ?_ }
+  refine { notcc := rfl, nob := rfl, arg := ?_, loc := ?_, argR := ?_, locR := ?_, clos := ?_, und := ?_, tops := ?_, loopdef := ?_ }
   · intro x hx
     rw [mem_visit_argDecl] at hx
     exact (hp x).mpr (hx.imp id (hl x).2.1.mp)
@@ -53,7 +53,7 @@ theorem frameOK_visit {c : Cfg} {T : List Name} {i0 : Ids} {b : Body} {root : Bo
 
 theorem FrameOK.addArgs {c : Cfg} {T : List Name} {f : Frame} (h : FrameOK c T f) (e : List Name) :
     FrameOK c T { f with ids := f.ids.addArgs e, params := f.params ++ e } := by
-  refine { notcc := h.notcc, arg := ?_, loc := ?_, argR := ?_, locR := h.locR, clos := h.clos, und := h.und, tops := h.tops,
+  refine { notcc := h.notcc, nob := h.nob, arg := ?_, loc := ?_, argR := ?_, locR := h.locR, clos := h.clos, und := h.und, tops := h.tops,
            loopdef := h.loopdef }
   · intro x hx
     simp only [addArgs_argDecl, List.mem_append] at hx ⊢
@@ -72,7 +72,7 @@ defs of the call from `closuredefs` -/
 theorem FrameOK.callBody {c : Cfg} {T : List Name} {f : Frame} (h : FrameOK c T f) (z : Name) (p : Name → Bool) :
     FrameOK c T { f with ids := { (f.ids.addDeclared z) with closdefs := (f.ids.addDeclared z).closdefs.filter p },
                          defs := f.defs.filter p } := by
-  refine { notcc := h.notcc, arg := h.arg, loc := h.loc, argR := h.argR, locR := h.locR, clos := ?_, und := ?_, tops := h.tops,
+  refine { notcc := h.notcc, nob := h.nob, arg := h.arg, loc := h.loc, argR := h.argR, locR := h.locR, clos := ?_, und := ?_, tops := h.tops,
            loopdef := ?_ }
   · intro x
     simp only [Ids.addDeclared, List.mem_filter]
